@@ -72,9 +72,11 @@ def clean_composite_curve_ends(
     if np.all(np.isclose(x_vals, 0.0, atol=tol)) or np.abs(x_vals.var()) < tol:
         return np.array([]), np.array([])
     
-    mask_0 = ~np.isclose(x_vals, x_vals[0] * np.ones(len(x_vals)), atol=tol)
+    # absolute comparison only: the default relative tolerance (1e-5 of the value) would
+    # treat a genuine first/last segment of a large-duty curve as part of a flat end
+    mask_0 = ~np.isclose(x_vals, x_vals[0] * np.ones(len(x_vals)), rtol=0.0, atol=tol)
     start = np.flatnonzero(mask_0)[0] - 1
-    mask_1 = ~np.isclose(x_vals, x_vals[-1] * np.ones(len(x_vals)), atol=tol)
+    mask_1 = ~np.isclose(x_vals, x_vals[-1] * np.ones(len(x_vals)), rtol=0.0, atol=tol)
     end = np.flatnonzero(mask_1)[-1] + 1
 
     x_clean = x_vals[start:end+1]
